@@ -121,6 +121,17 @@ def gen_case(rng, thorough):
             k1, k2, k3 = (rng.choice(KEYS) for _ in range(3))
             d1, d2 = {"pattern": {k1: "?y"}}, {"pattern": {k2: "?x"}}
             q = {"and": [{"or": [d1, d2] if rng.random() < 0.6 else [d2, d1]}, {"pattern": {k3: "?x"} if rng.random() < 0.7 else {k3: "?x", k1: "?y"}}]}
+        if rng.random() < 0.10:
+            # directed: a script that fails for SOME of the bindings that reach it (it names a variable that only one disjunct binds: a
+            # ReferenceError for the bindings of the other) -- directly, or inside an `or` / `not`: the failure is the result of the
+            # query, whichever binding it happens for and whatever the bindings tried after it give
+            k1, k2 = rng.choice(KEYS), rng.choice(KEYS)
+            t = {"t": "eqvar", "x": "x", "v": rng.choice(VALS[:4])} if rng.random() < 0.7 else {"t": "bindvar", "k": "n", "x": "x"}
+            code = {"code": js_of_tmpl(t), "verif_tmpl": t}
+            wrap = rng.random()
+            term = code if wrap < 0.3 else ({"or": [code]} if wrap < 0.75 else ({"or": [{"pattern": {"nosuchkey": 1}}, code]} if wrap < 0.9 else {"not": code}))
+            d1, d2 = {"pattern": {k1: "?y"}}, {"pattern": {k2: "?x"}}
+            q = {"and": [{"or": [d1, d2] if rng.random() < 0.7 else [d2, d1]}, term]}
         if not as_rule:
             ops.append({"op": "query", "loc": "a", "query": q})
         else:
